@@ -75,6 +75,8 @@ static int ref_parse_addr(const char *txt, struct sockaddr_storage *out, int *ou
 	memcpy(out, &sin, sizeof sin); *outlen = sizeof sin; return 0;
 }
 
+static int ns_unspecified;   /* the text contains a nameserver/bind form the documentation does not pin down */
+
 /* ================================================================== reference: options */
 enum { K_INT, K_TV, K_FLAG, K_ADDR };
 enum { O_NDOTS, O_TIMEOUT, O_SKEW, O_MAXTIMEOUTS, O_MAXINFLIGHT, O_ATTEMPTS, O_RANDCASE, O_BINDTO, O_INITPROBE, O_MAXPROBE, O_BACKOFF,
@@ -213,6 +215,7 @@ static int ref_set_option(struct conf *c, const char *name, const char *val, int
 		if (r == -2) { c->unspecified |= 1u << o; return 2; }
 		if (r < 0) { return -1; }
 		memcpy(&c->bind, &ss, len); c->bindlen = len; c->unspecified &= ~(1u << o);
+		ns_unspecified = 1;       /* whether later nameservers can be bound to this address is the kernel's business */
 		return 0; }
 	}
 	return 2;
@@ -250,12 +253,13 @@ static int split_ws(char *line, char **tok, int max)
 	return n;
 }
 
-static int ns_unspecified;   /* the text contains a nameserver/bind form the documentation does not pin down */
 
 static int ref_resolv_conf(struct conf *c, const char *text, int flags)
 {
 	char *copy = strdup(text), *line = copy;
 	int ret = 0;
+	/* a carriage return is neither white space nor documented: what it does to an address/port token is not pinned */
+	if (strchr(text, '\r')) ns_unspecified = 1;
 	while (line) {
 		char *nl = strchr(line, '\n'), *tok[40]; int nt;
 		if (nl) *nl = 0;
@@ -465,7 +469,7 @@ static const int flagsets[] = { DNS_OPTION_SEARCH | DNS_OPTION_NAMESERVERS | DNS
 #define ALLF (DNS_OPTION_SEARCH | DNS_OPTION_NAMESERVERS | DNS_OPTION_MISC)
 
 static const char *const rc_tok[10] = { "nameserver", "options", "search", " ", "\n", "1.2.3.4", "ndots:3", "x.y", "#", ":" };
-static const char *const hosts_tok[10] = { "1.2.3.4", "::1", "a", "b.c", " ", "\t", "\n", "#", ":", "9" };
+static const char *const hosts_tok[10] = { "1.2.3.4", "::1", "a", "b.c", " ", "\t", "\n", "#", ":9", "7" };
 static const char hosts_chr[10] = { '1', '.', ':', ' ', '\t', '\n', '#', 'a', '\r', 'f' };
 
 static const char *const opt_vals[] = { NULL, "", "0", "1", "2", "5", "15", "16", "30", "255", "256", "512", "3600", "3601", "65000", "65535", "65536", "99999999999",
@@ -550,6 +554,8 @@ static void run_options(int n, const int *names, const char *const *vals)
 	ref = pristine; ns_unspecified = 0;
 	for (int k = 0; k < n; k++) {
 		const char *name = optname(names[k], nb[k], sizeof nb[k]), *val = vals[k];
+		int oi0 = opt_lookup(name);
+		if (!val && oi0 >= 0 && optdefs[oi0].kind != K_FLAG) val = "";   /* NULL is documented for the valueless options only */
 		int e = ref_set_option(&ref, name, val, DNS_OPTIONS_ALL);
 		int r = evdns_base_set_option(b, name, val);
 		o += snprintf(desc + o, sizeof desc - o, "set_option(\"%s\", %s%s%s)=%d ", name, val ? "\"" : "", val ? val : "NULL", val ? "\"" : "", r);
